@@ -124,6 +124,7 @@ theorem reset_queue (cfg : EnvCfg α) (lo hi : Time) (start : Nat) (clk : Option
 theorem null_action_in_space (sp : Space α) :
     (match sp.kind with
      | .box lo hi => lo ≤ 0 ∧ 0 ≤ hi
+     | .boxv bs => bs.length = sp.keys.length ∧ ∀ b ∈ bs, b.1 ≤ 0 ∧ 0 ≤ b.2
      | .disc allocs => allocs ≠ []) → contains sp (nullAction sp) = true := by
   intro h
   unfold nullAction contains
@@ -134,6 +135,22 @@ theorem null_action_in_space (sp : Space α) :
       rw [List.all_eq_true]
       intro x _
       simp [h.1, h.2]
+  | boxv bs =>
+      rw [hk] at h
+      simp only [List.length_map, decide_true, Bool.true_and, h.1]
+      rw [List.all_eq_true]
+      intro p hp
+      have h2 : p.2 ∈ bs := (List.of_mem_zip (by
+        have : (p.1, p.2) ∈ (sp.keys.map fun _ => (some 0 : Option α)).zip bs := by simpa using hp
+        exact this)).2
+      have h1 : p.1 = some 0 := by
+        have := (List.of_mem_zip (by
+          have : (p.1, p.2) ∈ (sp.keys.map fun _ => (some 0 : Option α)).zip bs := by simpa using hp
+          exact this)).1
+        obtain ⟨_, _, e⟩ := List.mem_map.mp this
+        exact e.symm
+      rw [h1]
+      simp [(h.2 p.2 h2).1, (h.2 p.2 h2).2]
   | disc allocs =>
       rw [hk] at h
       simp only
@@ -144,10 +161,12 @@ theorem null_action_in_space (sp : Space α) :
 theorem null_action_denotes (sp : Space α) :
     denote sp (nullAction sp) = (match sp.kind with
       | .box _ _ => sp.keys.map (fun _ => (0 : α))
+      | .boxv _ => sp.keys.map (fun _ => (0 : α))
       | .disc allocs => (allocs[0]?).getD []) := by
   unfold nullAction denote
   cases hk : sp.kind with
   | box lo hi => simp
+  | boxv bs => simp
   | disc allocs => simp [hk]
 
 def marketOf (e : TEvent (Payload α)) : Option (MEvent α) :=
